@@ -67,6 +67,25 @@ type FDCase struct {
 	// one font, every choice drawn from GSeed (see campaign)
 	Steps int    `json:"steps,omitempty"`
 	GSeed uint64 `json:"gseed,omitempty"`
+	// Wrap: the (faulted) plain sfnt image is stored on the simulated disk re-packaged as
+	// "woff" (zlib-compressed tables) or "ttc" (a collection of two members sharing all tables)
+	Wrap string `json:"wrap,omitempty"`
+}
+
+// storedImage applies the byte faults and the container re-packaging of a case.
+func storedImage(c *FDCase, pristine []byte) []byte {
+	img := applyByteFaults(pristine, c.Bytes)
+	switch c.Wrap {
+	case "woff":
+		if w, ok := faultdisk.WrapWOFF(img); ok {
+			return w
+		}
+	case "ttc":
+		if w, ok := faultdisk.WrapTTC(img, 2); ok {
+			return w
+		}
+	}
+	return img
 }
 
 func applyByteFaults(img []byte, fs []ByteFault) []byte {
@@ -314,7 +333,6 @@ func (e *fdEngine) Generate(seed uint64, tier string, run int) (json.RawMessage,
 	}
 	img := corpus.Bytes(c.Font)
 	kind, tables := faultdisk.ParseDirectory(img)
-	_ = kind
 	if rk.Chance(0.02) {
 		// adversarial stored image: one table replaced by a small well-formed table that aims at
 		// a work limit (shaper buffer length / operation budget, lookup nesting, cmap enumeration)
@@ -437,6 +455,9 @@ func (e *fdEngine) Generate(seed uint64, tier string, run int) (json.RawMessage,
 	kw[rk.Intn(len(kw))] += 2
 	for i := 0; i < nByte; i++ {
 		c.Bytes = append(c.Bytes, genByteFault(rf, kw, img, tables))
+	}
+	if kind == faultdisk.KindSfnt && rk.Chance(0.1) {
+		c.Wrap = kernel.Pick(rk, []string{"woff", "woff", "ttc"})
 	}
 	if nIO > 0 {
 		calls := ioCalls(c.Font)
@@ -789,8 +810,11 @@ func (e *fdEngine) execute(raw json.RawMessage, profiled bool) (*kernel.Outcome,
 	}
 	out := &kernel.Outcome{}
 	pristine := corpus.Bytes(c.Font)
-	img := applyByteFaults(pristine, c.Bytes)
+	img := storedImage(&c, pristine)
 	w := &fdWorld{out: out, img: img, profiled: profiled}
+	if c.Wrap != "" {
+		out.Count("container.repackaged_as_"+c.Wrap, 1)
+	}
 	out.Count("family."+c.Family, 1)
 	if c.SysTotal > 0 {
 		out.Count("systematic_list_size", int64(c.SysTotal)) // reported by run 0 only
@@ -850,7 +874,11 @@ func (e *fdEngine) execute(raw json.RawMessage, profiled bool) (*kernel.Outcome,
 		}
 	}
 	if v == nil && len(c.IO) == 0 {
-		v = w.readerFidelity(img)
+		if c.Wrap != "" {
+			v = w.readerFidelity(applyByteFaults(pristine, c.Bytes), img)
+		} else {
+			v = w.readerFidelity(img, img)
+		}
 	}
 	if len(c.Bytes)+len(c.IO) > 0 && (len(c.Bytes) > 0 || len(file.Fired) > 0) {
 		out.Nontrivial = true
@@ -913,35 +941,51 @@ func (e *fdEngine) execute(raw json.RawMessage, profiled bool) (*kernel.Outcome,
 // byte-identical to the image at the directory's offset and length, and a table that
 // extends past the end of the image cannot be returned at all: no fabricated bytes, no
 // partial read passed off as complete.
-func (w *fdWorld) readerFidelity(img []byte) (v *kernel.Violation) {
+func (w *fdWorld) readerFidelity(img, stored []byte) (v *kernel.Violation) {
+	// img: the plain sfnt image whose directory says what each table holds; stored: what the
+	// simulated disk serves (img itself, or img re-packaged as WOFF / TTC: then the loader must
+	// hand out, for every member, exactly the bytes that were packed)
 	kind, tabs := faultdisk.ParseDirectory(img)
 	if kind != faultdisk.KindSfnt || len(tabs) == 0 {
 		return nil
+	}
+	repacked := len(stored) != len(img) || !bytes.Equal(stored, img)
+	if repacked {
+		// packed bodies are clipped to the bytes that exist
+		for i := range tabs {
+			if tabs[i].Offset > len(img) {
+				tabs[i].Length = 0
+			} else if tabs[i].Offset+tabs[i].Length > len(img) {
+				tabs[i].Length = len(img) - tabs[i].Offset
+			}
+		}
 	}
 	seen := map[string]int{}
 	for _, t := range tabs {
 		seen[t.Tag]++
 	}
 	return w.guarded("table reads", tickBudget(len(img)), func() {
-		lds, err := ot.NewLoaders(faultdisk.NewFile(img, nil))
-		if err != nil || len(lds) != 1 {
+		lds, err := ot.NewLoaders(faultdisk.NewFile(stored, nil))
+		if err != nil || (len(lds) != 1 && !repacked) {
 			return
 		}
-		for _, t := range tabs {
-			if seen[t.Tag] != 1 || t.Length == 0 || t.Length > 64<<20 || t.Offset < 0 {
-				continue
-			}
-			tag, terr := ot.NewTag(t.Tag[0], t.Tag[1], t.Tag[2], t.Tag[3]), error(nil)
-			raw, terr := lds[0].RawTable(tag)
-			w.out.Count("check.reader_fidelity", 1)
-			if terr != nil {
-				continue
-			}
-			if t.Offset+t.Length > len(img) {
-				panic(fidelityBreach(fmt.Sprintf("table %q (offset %d, length %d) extends past the %d-byte image but RawTable returned %d bytes without error", t.Tag, t.Offset, t.Length, len(img), len(raw))))
-			}
-			if !bytes.Equal(raw, img[t.Offset:t.Offset+t.Length]) {
-				panic(fidelityBreach(fmt.Sprintf("RawTable(%q) differs from the image at offset %d, length %d", t.Tag, t.Offset, t.Length)))
+		for _, ld := range lds {
+			for _, t := range tabs {
+				if seen[t.Tag] != 1 || t.Length == 0 || t.Length > 64<<20 || t.Offset < 0 {
+					continue
+				}
+				tag, terr := ot.NewTag(t.Tag[0], t.Tag[1], t.Tag[2], t.Tag[3]), error(nil)
+				raw, terr := ld.RawTable(tag)
+				w.out.Count("check.reader_fidelity", 1)
+				if terr != nil {
+					continue
+				}
+				if t.Offset+t.Length > len(img) {
+					panic(fidelityBreach(fmt.Sprintf("table %q (offset %d, length %d) extends past the %d-byte image but RawTable returned %d bytes without error", t.Tag, t.Offset, t.Length, len(img), len(raw))))
+				}
+				if !bytes.Equal(raw, img[t.Offset:t.Offset+t.Length]) {
+					panic(fidelityBreach(fmt.Sprintf("RawTable(%q) differs from the image at offset %d, length %d", t.Tag, t.Offset, t.Length)))
+				}
 			}
 		}
 	})
